@@ -37,6 +37,8 @@ const SIG_SPLIT_EMPTY: &str = "C24/proxy/values/split-of-empty-string";
 const SIG_LAST_EMPTY: &str = "C24/proxy/values/last-of-empty-stream";
 /// known finding: variables bound outside `error(...)` (by `as` or --arg) are undefined inside its argument
 const SIG_ERROR_ARG_SCOPE: &str = "C24/error-argument-loses-variable-scope";
+/// known finding: index/rindex/indices(string) on an *object* input index the object (`.[$i]`) in jq, give null in succinctly
+const SIG_INDEX_OBJECT: &str = "C24/proxy/index-builtins-on-object-input";
 const SIG_FORMAT_LITERAL: &str = "C24/parse-reject/format-string-literal";
 const TWO53: f64 = 9007199254740992.0;
 
@@ -596,6 +598,8 @@ struct Outc {
     /// None: outputs before the error are not recorded (error probes)
     ys: Option<Vec<(J, Option<String>)>>,
     err: Option<J>,
+    /// the recorded filter does arithmetic / uses nan: a printed `null` may be NaN (truthy)
+    null_may_be_nan: bool,
 }
 
 #[derive(Clone, Debug, PartialEq)]
@@ -671,7 +675,7 @@ impl W {
         }
         let ys: Vec<(J, Option<String>)> = o.ys.clone().unwrap_or_default();
         let ok = o.err.is_none();
-        let same = |t: String| Some((t, Outc { ys: Some(ys.clone()), err: o.err.clone() }));
+        let same = |t: String| Some((t, Outc { null_may_be_nan: o.null_may_be_nan, ys: Some(ys.clone()), err: o.err.clone() }));
         let text_all = |v: &[(J, Option<String>)]| -> Option<Vec<String>> { v.iter().map(|x| x.1.clone()).collect() };
         let collected = || -> (J, Option<String>) { (J::Arr(ys.iter().map(|x| x.0.clone()).collect()), text_all(&ys).map(|t| format!("[{}]", t.join(",")))) };
         let lit = |j: J| -> (J, Option<String>) {
@@ -679,7 +683,7 @@ impl W {
             (j, Some(t))
         };
         match self {
-            W::Collect => Some((format!("[{}]", p), if ok { Outc { ys: Some(vec![collected()]), err: None } } else { Outc { ys: Some(vec![]), err: o.err.clone() } })),
+            W::Collect => Some((format!("[{}]", p), if ok { Outc { null_may_be_nan: o.null_may_be_nan, ys: Some(vec![collected()]), err: None } } else { Outc { null_may_be_nan: o.null_may_be_nan, ys: Some(vec![]), err: o.err.clone() } })),
             W::PipeId => same(format!("({}) | .", p)),
             W::IdPipe => same(format!(". | ({})", p)),
             W::Dup => {
@@ -687,19 +691,19 @@ impl W {
                 if ok {
                     v.extend(ys.clone());
                 }
-                Some((format!("({}), ({})", p, p), Outc { ys: Some(v), err: o.err.clone() }))
+                Some((format!("({}), ({})", p, p), Outc { null_may_be_nan: o.null_may_be_nan, ys: Some(v), err: o.err.clone() }))
             }
-            W::First => Some((format!("first({})", p), if ys.is_empty() { Outc { ys: Some(vec![]), err: o.err.clone() } } else { Outc { ys: Some(vec![ys[0].clone()]), err: None } })),
-            W::Limit(n) => Some((format!("limit({}; {})", n, p), if ys.len() >= *n { Outc { ys: Some(ys[..*n].to_vec()), err: None } } else { Outc { ys: Some(ys.clone()), err: o.err.clone() } })),
+            W::First => Some((format!("first({})", p), if ys.is_empty() { Outc { null_may_be_nan: o.null_may_be_nan, ys: Some(vec![]), err: o.err.clone() } } else { Outc { null_may_be_nan: o.null_may_be_nan, ys: Some(vec![ys[0].clone()]), err: None } })),
+            W::Limit(n) => Some((format!("limit({}; {})", n, p), if ys.len() >= *n { Outc { null_may_be_nan: o.null_may_be_nan, ys: Some(ys[..*n].to_vec()), err: None } } else { Outc { null_may_be_nan: o.null_may_be_nan, ys: Some(ys.clone()), err: o.err.clone() } })),
             W::CollectIdx(i) | W::CollectIdxParen(i) => {
                 let t = if matches!(self, W::CollectIdx(_)) { format!("[{}][{}]", p, i) } else { format!("([{}])[{}]", p, i) };
                 if !ok {
-                    return Some((t, Outc { ys: Some(vec![]), err: o.err.clone() }));
+                    return Some((t, Outc { null_may_be_nan: o.null_may_be_nan, ys: Some(vec![]), err: o.err.clone() }));
                 }
                 let n = ys.len() as i64;
                 let k = if *i < 0 { n + i } else { *i };
                 let v = if k >= 0 && k < n { ys[k as usize].clone() } else { lit(J::Null) };
-                Some((t, Outc { ys: Some(vec![v]), err: None }))
+                Some((t, Outc { null_may_be_nan: o.null_may_be_nan, ys: Some(vec![v]), err: None }))
             }
             W::AsIn => same(format!(". as $vh_i{} | ({})", d, p)),
             W::Def => same(format!("def vh_g{}: {}; vh_g{}", d, p, d)),
@@ -711,59 +715,60 @@ impl W {
                 if let Some(e) = &o.err {
                     v.push((e.clone(), None));
                 }
-                Some((format!("try ({}) catch .", p), Outc { ys: Some(v), err: None }))
+                Some((format!("try ({}) catch .", p), Outc { null_may_be_nan: o.null_may_be_nan, ys: Some(v), err: None }))
             }
-            W::TryQ => Some((format!("({})?", p), Outc { ys: Some(ys.clone()), err: None })),
-            W::TryBare => Some((format!("try ({})", p), Outc { ys: Some(ys.clone()), err: None })),
-            W::ObjVal => Some((format!("{{a: ({})}}", p), Outc { ys: Some(ys.iter().map(|(j, t)| (J::Obj(vec![("a".into(), j.clone())]), t.as_ref().map(|t| format!("{{\"a\":{}}}", t)))).collect()), err: o.err.clone() })),
+            W::TryQ => Some((format!("({})?", p), Outc { null_may_be_nan: o.null_may_be_nan, ys: Some(ys.clone()), err: None })),
+            W::TryBare => Some((format!("try ({})", p), Outc { null_may_be_nan: o.null_may_be_nan, ys: Some(ys.clone()), err: None })),
+            W::ObjVal => Some((format!("{{a: ({})}}", p), Outc { null_may_be_nan: o.null_may_be_nan, ys: Some(ys.iter().map(|(j, t)| (J::Obj(vec![("a".into(), j.clone())]), t.as_ref().map(|t| format!("{{\"a\":{}}}", t)))).collect()), err: o.err.clone() })),
             W::AsOut => same(format!("({}) as $vh_o{} | $vh_o{}", p, d, d)),
-            W::CollectLen => Some((format!("[{}] | length", p), if ok { Outc { ys: Some(vec![lit(J::int(ys.len() as i64))]), err: None } } else { Outc { ys: Some(vec![]), err: o.err.clone() } })),
-            W::ReduceLast => Some((format!("reduce ({}) as $vh_r{} (null; $vh_r{})", p, d, d), if ok { Outc { ys: Some(vec![ys.last().cloned().unwrap_or_else(|| lit(J::Null))]), err: None } } else { Outc { ys: Some(vec![]), err: o.err.clone() } })),
+            W::CollectLen => Some((format!("[{}] | length", p), if ok { Outc { null_may_be_nan: o.null_may_be_nan, ys: Some(vec![lit(J::int(ys.len() as i64))]), err: None } } else { Outc { null_may_be_nan: o.null_may_be_nan, ys: Some(vec![]), err: o.err.clone() } })),
+            W::ReduceLast => Some((format!("reduce ({}) as $vh_r{} (null; $vh_r{})", p, d, d), if ok { Outc { null_may_be_nan: o.null_may_be_nan, ys: Some(vec![ys.last().cloned().unwrap_or_else(|| lit(J::Null))]), err: None } } else { Outc { null_may_be_nan: o.null_may_be_nan, ys: Some(vec![]), err: o.err.clone() } })),
             W::ForeachCount => Some((
                 format!("foreach ({}) as $vh_f{} (0; . + 1; [., $vh_f{}])", p, d, d),
-                Outc { ys: Some(ys.iter().enumerate().map(|(i, (j, t))| (J::Arr(vec![J::int(i as i64 + 1), j.clone()]), t.as_ref().map(|t| format!("[{},{}]", i + 1, t)))).collect()), err: o.err.clone() },
+                Outc { null_may_be_nan: o.null_may_be_nan, ys: Some(ys.iter().enumerate().map(|(i, (j, t))| (J::Arr(vec![J::int(i as i64 + 1), j.clone()]), t.as_ref().map(|t| format!("[{},{}]", i + 1, t)))).collect()), err: o.err.clone() },
             )),
-            W::PipeConst => Some((format!("({}) | \"vh\"", p), Outc { ys: Some(ys.iter().map(|_| lit(J::Str("vh".into()))).collect()), err: o.err.clone() })),
+            W::PipeConst => Some((format!("({}) | \"vh\"", p), Outc { null_may_be_nan: o.null_may_be_nan, ys: Some(ys.iter().map(|_| lit(J::Str("vh".into()))).collect()), err: o.err.clone() })),
+            W::Alt if o.null_may_be_nan && ys.iter().any(|x| matches!(x.0, J::Null)) => None,
             W::Alt => {
                 let truthy: Vec<(J, Option<String>)> = ys.iter().filter(|x| !matches!(x.0, J::Null | J::Bool(false))).cloned().collect();
                 let t = format!("({}) // \"vh-dflt\"", p);
                 if ok {
                     let v = if truthy.is_empty() { vec![lit(J::Str("vh-dflt".into()))] } else { truthy };
-                    Some((t, Outc { ys: Some(v), err: None }))
+                    Some((t, Outc { null_may_be_nan: o.null_may_be_nan, ys: Some(v), err: None }))
                 } else {
                     // an error raised by the left-hand side propagates (golden alt_error_after_output)
-                    Some((t, Outc { ys: Some(truthy), err: o.err.clone() }))
+                    Some((t, Outc { null_may_be_nan: o.null_may_be_nan, ys: Some(truthy), err: o.err.clone() }))
                 }
             }
             W::SelectTrue => same(format!("({}) | select(true)", p)),
-            W::ArrEach => Some((format!("({}) | [.]", p), Outc { ys: Some(ys.iter().map(|(j, t)| (J::Arr(vec![j.clone()]), t.as_ref().map(|t| format!("[{}]", t)))).collect()), err: o.err.clone() })),
+            W::ArrEach => Some((format!("({}) | [.]", p), Outc { null_may_be_nan: o.null_may_be_nan, ys: Some(ys.iter().map(|(j, t)| (J::Arr(vec![j.clone()]), t.as_ref().map(|t| format!("[{}]", t)))).collect()), err: o.err.clone() })),
             W::Tail => {
                 let mut v = ys.clone();
                 if ok {
                     v.push(lit(J::Str("vh-tail".into())));
                 }
-                Some((format!("({}), \"vh-tail\"", p), Outc { ys: Some(v), err: o.err.clone() }))
+                Some((format!("({}), \"vh-tail\"", p), Outc { null_may_be_nan: o.null_may_be_nan, ys: Some(v), err: o.err.clone() }))
             }
             W::Head => {
                 let mut v = vec![lit(J::Str("vh-head".into()))];
                 v.extend(ys.clone());
-                Some((format!("\"vh-head\", ({})", p), Outc { ys: Some(v), err: o.err.clone() }))
+                Some((format!("\"vh-head\", ({})", p), Outc { null_may_be_nan: o.null_may_be_nan, ys: Some(v), err: o.err.clone() }))
             }
             W::Label => same(format!("label $vh_l{} | ({})", d, p)),
             W::LabelBreak => same(format!("label $vh_b{} | (({}), break $vh_b{}, \"vh-unreachable\")", d, p, d)),
-            W::CollectIter => Some((format!("[{}] | .[]", p), if ok { Outc { ys: Some(ys.clone()), err: None } } else { Outc { ys: Some(vec![]), err: o.err.clone() } })),
+            W::CollectIter => Some((format!("[{}] | .[]", p), if ok { Outc { null_may_be_nan: o.null_may_be_nan, ys: Some(ys.clone()), err: None } } else { Outc { null_may_be_nan: o.null_may_be_nan, ys: Some(vec![]), err: o.err.clone() } })),
             W::ErrFirst => {
                 // try error(f) catch . : the first output of f is raised and caught; an error of f itself is caught too
                 let t = format!("try error({}) catch .", p);
                 if let Some(y) = ys.first() {
-                    Some((t, Outc { ys: Some(vec![(y.0.clone(), None)]), err: None }))
+                    Some((t, Outc { null_may_be_nan: o.null_may_be_nan, ys: Some(vec![(y.0.clone(), None)]), err: None }))
                 } else if let Some(e) = &o.err {
-                    Some((t, Outc { ys: Some(vec![(e.clone(), None)]), err: None }))
+                    Some((t, Outc { null_may_be_nan: o.null_may_be_nan, ys: Some(vec![(e.clone(), None)]), err: None }))
                 } else {
-                    Some((t, Outc { ys: Some(vec![]), err: None }))
+                    Some((t, Outc { null_may_be_nan: o.null_may_be_nan, ys: Some(vec![]), err: None }))
                 }
             }
-            W::EmptyAfter => Some((format!("({}) | empty", p), Outc { ys: Some(vec![]), err: o.err.clone() })),
+            W::EmptyAfter => Some((format!("({}) | empty", p), Outc { null_may_be_nan: o.null_may_be_nan, ys: Some(vec![]), err: o.err.clone() })),
         }
     }
 }
@@ -781,7 +786,9 @@ struct MetaCase {
 
 fn build_meta(a: &Anchor, ws: &[W], iter2: bool) -> Option<MetaCase> {
     let mut prog = a.filter.clone();
-    let mut o = Outc { ys: a.ys.clone(), err: a.err.clone() };
+    let arith = ["nan", "infinite", "log", "log2", "log10", "exp", "exp2", "exp10", "sqrt", "pow", "sin", "cos", "atan", "floor", "ceil", "round", "trunc", "fabs", "tonumber", "fromjson", "significand", "gamma", "logb"];
+    let may_nan = a.filter.chars().any(|c| "+-*/%".contains(c)) || idents(&a.filter).iter().any(|w| arith.contains(&w.as_str()));
+    let mut o = Outc { null_may_be_nan: may_nan, ys: a.ys.clone(), err: a.err.clone() };
     let mut applied = vec![];
     let mut errfirst_empty = false;
     for (d, w) in ws.iter().enumerate() {
@@ -806,7 +813,7 @@ fn build_meta(a: &Anchor, ws: &[W], iter2: bool) -> Option<MetaCase> {
         let mut v = ys.clone();
         v.extend(ys.clone());
         let txt: Option<Vec<String>> = v.iter().map(|x| x.1.clone()).collect();
-        o = if ok { Outc { ys: Some(vec![(J::Arr(v.iter().map(|x| x.0.clone()).collect()), txt.map(|t| format!("[{}]", t.join(","))))]), err: None } } else { Outc { ys: Some(vec![]), err: o.err.clone() } };
+        o = if ok { Outc { null_may_be_nan: o.null_may_be_nan, ys: Some(vec![(J::Arr(v.iter().map(|x| x.0.clone()).collect()), txt.map(|t| format!("[{}]", t.join(","))))]), err: None } } else { Outc { null_may_be_nan: o.null_may_be_nan, ys: Some(vec![]), err: o.err.clone() } };
         prog = format!("[.[] | ({})]", prog);
         let x = a.input.trim();
         input = format!("[{},{}]\n", x, x);
@@ -1111,6 +1118,9 @@ fn compare_docs(c: &ProxyCase, env: &ProxyEnv, a: &[DocRes], b: &[DocRes], docs:
         match (&ra.err, &rb.err) {
             (Some(ErrMsg::Str(m)), None) => {
                 let t = template(m);
+                if c.program.contains("index(\"") && docs[i].starts_with('{') && m.starts_with("Cannot index") && rb.ys.len() == 1 && matches!(rb.ys[0], J::Null) {
+                    fail!(SIG_INDEX_OBJECT, {"case": case()});
+                }
                 fail!(format!("C24/proxy/only-jq-errors/{}", t), {"case": case(), "family_recorded_stable": env.stable.contains(&t)});
             }
             (Some(ErrMsg::NotStr(_)), None) => fail!("C24/proxy/only-jq-errors/(not a string)", {"case": case()}),
